@@ -12,7 +12,7 @@
                   the three OAuth browser-flow endpoints bypass authentication.
    ExemptImpl(c)  how the exemption test is structured in _AuthMiddleware.process_request /
                   make_wsgi_app: one test per exempt entry.  With dev = FALSE it is the intended exact
-                  comparison (the code since /repo commit a062be5); with dev = TRUE it is the textual prefix
+                  comparison (the code since /repo commit fdf6a93); with dev = TRUE it is the textual prefix
                   match (`startswith`) the code had before -- kept to label the input class of that finding
                   (Leak(c)) so that a regression is reported under the same signature.
    Reach(c)       the router: would service code run for this request if it were authenticated.          *)
@@ -25,7 +25,7 @@ CONSTANTS PrefixNames,       \* subset of {"root", "vgi", "ab", "health"}: the p
           Creds,             \* subset of {"none", "bad", "good"}
           Verbs,             \* subset of {"GET", "POST", "OPTIONS", "HEAD", "DELETE", "PUT"}
           Rich,              \* TRUE: all route suffixes and three-segment paths; FALSE: the reduced (quick) path set
-          Dev_PrefixMatch    \* TRUE: Leak(c) labels the requests the pre-a062be5 prefix match let through; FALSE: no labels
+          Dev_PrefixMatch    \* TRUE: Leak(c) labels the requests the pre-fdf6a93 prefix match let through; FALSE: no labels
 
 PrefixSeq(n) == CASE n = "root" -> <<>> [] n = "vgi" -> <<"vgi">> [] n = "ab" -> <<"a", "b">> [] n = "health" -> <<"health">>
 Prefixes == {PrefixSeq(n) : n \in PrefixNames}
@@ -74,7 +74,7 @@ ExemptOAuth(c) == Pkce(c) /\ c.path \in OAuthEndpoints(c)
 Exempt(c) == c.verb = "OPTIONS" \/ UnderWellKnown(c.path) \/ ExemptHealth(c) \/ ExemptOAuth(c)
 
 \* ---------------------------------------------------------------- the middleware as written
-\* dev = FALSE: the intended exact comparison; dev = TRUE: the textual prefix match of the code before a062be5
+\* dev = FALSE: the intended exact comparison; dev = TRUE: the textual prefix match of the code before fdf6a93
 ImplHealthD(c, dev) == c.health_on /\
                  IF dev
                  THEN LET n == Len(c.prefix) IN          \* req.path.startswith(prefix + "/health")
